@@ -484,6 +484,55 @@ func c05(c *core.Check) {
 		r8.Cond(bad == "", name+" returns false for an empty value", p.Pos(fn.Pos()), "every path that can return true tests val != \"\" first", "with val == \"\": "+bad+" ([att^=\"\"] must match nothing)")
 	}
 
+	// ---- R10 CSS white space in word matching; element type comparison
+	r10 := c.Rule("R10", "class and ~= matching split the attribute on the five CSS white space characters only (space, tab, LF, CR, FF); the *-of-type pseudo-classes compare element names (Node.Data), since the atom of every unknown element is 0", 5)
+	if mi := p.Fn(pkg, "matchInclude"); mi != nil {
+		info := p.Info(pkg)
+		init := p.VarInit(pkg, "spaceAsciiSet")
+		okSet := false
+		if call, ok := init.(*ast.CallExpr); ok && len(call.Args) == 1 {
+			if s, ok := core.StrConst(info, call.Args[0]); ok {
+				rs := []rune(s)
+				sort.Slice(rs, func(i, j int) bool { return rs[i] < rs[j] })
+				okSet = string(rs) == "\t\n\f\r "
+			}
+		}
+		r10.Cond(okSet, "spaceAsciiSet is the CSS white space set", "css/selector/selector.go", "space, tab, LF, CR, FF", "the separator set is not exactly the five CSS white space characters")
+		usesSet, usesUnicode := false, ""
+		g := p.Global(pkg, "spaceAsciiSet")
+		core.Instrs(mi, func(in ssa.Instruction) {
+			if call, ok := in.(*ssa.Call); ok {
+				if callee := call.Common().StaticCallee(); callee != nil {
+					if callee.Pkg != nil && (callee.Pkg.Pkg.Path() == "strings" || callee.Pkg.Pkg.Path() == "unicode") {
+						switch callee.Name() {
+						case "Fields", "FieldsFunc", "TrimSpace", "IsSpace":
+							usesUnicode = callee.Pkg.Pkg.Path() + "." + callee.Name()
+						}
+					}
+					for _, a := range call.Call.Args {
+						if a == ssa.Value(g) {
+							usesSet = true
+						}
+					}
+				}
+			}
+		})
+		r10.Cond(usesSet && usesUnicode == "", "matchInclude splits on spaceAsciiSet", p.Pos(mi.Pos()), "uses spaceAsciiSet.index and no Unicode-aware splitter", "splits with "+usesUnicode+" / not with spaceAsciiSet: Unicode spaces such as U+00A0 would separate words")
+	} else {
+		r10.Anchor(pkg + ".matchInclude")
+	}
+	for _, name := range []string{"nthChildMatch", "simpleNthChildMatch", "simpleNthLastChildMatch"} {
+		fn := p.Fn(pkg, name)
+		if fn == nil {
+			r10.Anchor(pkg + "." + name)
+			continue
+		}
+		c05OfType(c, r10, fn)
+	}
+	if fn := p.Method(pkg, "onlyChildPseudoClassSelector", "Match"); fn != nil {
+		c05OfType(c, r10, fn)
+	}
+
 	// ---- R9 printed selectors re-parse
 	r9 := c.Rule("R9", "every String() method of css/selector that writes a value between double quotes passes it through an escaping function; every pseudo-class name written by a String() method is a name the parser accepts after lowercasing", 20)
 	parserNames := map[string]bool{}
@@ -555,6 +604,44 @@ func c05(c *core.Check) {
 	for _, extra := range []string{"contains", "containsown", "matches", "matchesown", "nth-child", "nth-last-child", "nth-of-type", "nth-last-of-type", "lang", "is", "not", "has"} {
 		r9.Cond(parserNames[extra], "parser accepts :"+extra, "css/selector/parser.go", "case present", "String() methods print this name but the parser no longer accepts it")
 	}
+}
+
+// c05OfType: comparisons between two node fields in an of-type counting loop must compare Data with Data.
+func c05OfType(c *core.Check, r *core.Rule, fn *ssa.Function) {
+	p := c.Prog
+	n, bad := 0, ""
+	core.Instrs(fn, func(in ssa.Instruction) {
+		b, ok := in.(*ssa.BinOp)
+		if !ok || (b.Op != token.EQL && b.Op != token.NEQ) {
+			return
+		}
+		fx, fy := nodeField(b.X), nodeField(b.Y)
+		if fx == "" || fy == "" {
+			return
+		}
+		n++
+		if fx != "Data" || fy != "Data" {
+			bad = fx + " vs " + fy
+		}
+	})
+	r.Cond(n >= 1 && bad == "", core.FuncName(fn)+" compares element names", p.Pos(fn.Pos()), fmt.Sprintf("%d comparison(s) of c.Data with n.Data", n), "the same-type test compares "+bad+": elements without a known atom (custom elements, most SVG elements) all compare equal")
+}
+
+// nodeField: v is a load of a field of an html.Node: returns the field name.
+func nodeField(v ssa.Value) string {
+	u, ok := v.(*ssa.UnOp)
+	if !ok || u.Op != token.MUL {
+		return ""
+	}
+	fa, ok := u.X.(*ssa.FieldAddr)
+	if !ok {
+		return ""
+	}
+	pt, ok := fa.X.Type().Underlying().(*types.Pointer)
+	if !ok || !strings.HasSuffix(pt.Elem().String(), "html.Node") {
+		return ""
+	}
+	return pt.Elem().Underlying().(*types.Struct).Field(fa.Field).Name()
 }
 
 func mustInt(v constant.Value) int64 { n, _ := constant.Int64Val(v); return n }
